@@ -313,7 +313,7 @@ fn sp(out: &mut String, st: &RStyle, rng: &mut Rng) {
     if st.spacing && rng.chance(1, 3) {
         let n = rng.below(2) + 1;
         for _ in 0..n {
-            out.push(*rng.pick(&[' ', ' ', '\t', '\n']));
+            out.push(*rng.pick(&[' ', ' ', '\t', '\n', '\r']));
         }
     }
 }
@@ -422,15 +422,11 @@ fn r_steps(steps: &[Step], out: &mut String, st: &RStyle, rng: &mut Rng) {
                             r_idx(x, out, st, rng);
                             // at least one space is needed around `to` after a number? `1to2` is
                             // accepted by the grammar (multispace0); keep a space unless spacing is on
-                            if st.spacing && rng.chance(1, 4) {
-                            } else {
-                                out.push(' ');
-                            }
+                            // (any white space, or none, may stand on either side of the keyword)
+                            let gap = |rng: &mut Rng| if st.spacing { *rng.pick(&["", " ", " ", "\t", "\n", "\r\n", "  "]) } else { " " };
+                            out.push_str(gap(rng));
                             out.push_str(&kw("to", st, rng));
-                            if st.spacing && rng.chance(1, 4) {
-                            } else {
-                                out.push(' ');
-                            }
+                            out.push_str(gap(rng));
                             r_idx(y, out, st, rng);
                         }
                     }
